@@ -179,6 +179,10 @@ func (v *RuleVistor) Process(node *Node) {
 						panic("It's not define symbol ")
 					}
 					id := v.idsymtabl[right.Element]
+					if id.Value == -1 {
+						// a token declared with the code -1 is the end marker itself: it gets no symbol of its own
+						panic(fmt.Sprintf("%s is the end of input and can not be used in a rule", id.Name))
+					}
 					if precIdsym := v.preMap[id.Name]; precIdsym != nil {
 						r.PrecIdSym = precIdsym
 					}
